@@ -400,6 +400,78 @@ class Reserved(Part):
         return None
 
 
+class GlobalRepeat(Part):
+    """tal:repeat with the (undocumented, but accepted) 'global' keyword:
+    the loop variable is a global definition - it must render, show each
+    item inside the loop and keep the last item afterwards, also after
+    returning from an in-place macro.  (What the name holds after a loop
+    over an empty sequence is not asserted.)"""
+    name = "globalrepeat"
+    examples = {"quick": 150, "thorough": 3000}
+
+    def strategy(self, tier):
+        return st.fixed_dictionaries({
+            "name": st.sampled_from(["x", "len", "get", "ga"]),
+            "items": st.lists(st.sampled_from(["a", "b", "c"]), max_size=3),
+            "prebound": st.booleans(),
+            "macro": st.booleans(),
+            "outer_local": st.booleans(),
+            "tuple": st.booleans(),
+        })
+
+    def source(self, case):
+        n = case["name"]
+        p = "[${%s | 'U'}]" % n
+        tgt = "global (%s, other)" % n if case["tuple"] else "global " + n
+        loop = '<i tal:repeat="%s seq"%s>%s</i>' % (
+            tgt, ' metal:define-macro="m"' if case["macro"] else "", p)
+        body = p + loop + p
+        if case["outer_local"]:
+            body = '<div tal:define="unrelated 1">%s</div>' % body
+        return body + p
+
+    def nontrivial(self, case):
+        return len(case["items"]) > 0
+
+    def labels(self, case):
+        if case["macro"]:
+            yield "in_macro"
+        if not case["items"]:
+            yield "empty"
+
+    def oracle(self, case):
+        from chameleon import PageTemplate
+        src = self.source(case)
+        env = {"seq": [(x, 0) for x in case["items"]] if case["tuple"]
+               else list(case["items"])}
+        if case["prebound"]:
+            env[case["name"]] = "pre"
+        detail = {"source": src, "env": {k: v for k, v in env.items()}}
+        o = run(PageTemplate, src)
+        if not o.ok:
+            return Mismatch("globalrepeat:compile raises " + o.exc_name,
+                            dict(detail, outcome=o.brief()))
+        o = run(o.value.render, **env)
+        if not o.ok:
+            return Mismatch("globalrepeat:render raises " + o.exc_name,
+                            dict(detail, outcome=o.brief()))
+        import re as _re
+        probes = _re.findall(r"\[([^\]]*)\]", o.value)
+        detail["got"] = o.value
+        items = case["items"]
+        first = "pre" if case["prebound"] else (
+            "U" if case["name"] in ("x", "ga") else None)
+        if len(probes) != 3 + len(items):
+            return Mismatch("globalrepeat:number of probes", detail)
+        if first is not None and probes[0] != first:
+            return Mismatch("globalrepeat:before the loop", detail)
+        if probes[1:1 + len(items)] != items:
+            return Mismatch("globalrepeat:inside the loop", detail)
+        if items and probes[-2:] != [items[-1]] * 2:
+            return Mismatch("globalrepeat:after the loop", detail)
+        return None
+
+
 class ScopeObject(Stage):
     """Stateful model-based test of chameleon.utils.Scope."""
     name = "scopeobj"
@@ -533,7 +605,7 @@ CHECK = Check(
           ">= 2 nesting levels (or pre-bound and shadowed); reserved: 7 "
           "reserved and 5 near-miss names x 7 statement positions; scopeobj: "
           "state machine on utils.Scope, non-trivial = machines with a copy"),
-    parts=[ScopePart(), Reserved()],
+    parts=[ScopePart(), Reserved(), GlobalRepeat()],
     stages=[ScopeObject()],
     assumptions=[
         "documented special names (repeat, default, nothing, attrs, "
